@@ -376,9 +376,8 @@ func (f *FileStore) WalkKeys(seek []byte, fn func(key []byte, typ byte) error) e
 
 // Keys returns all keys and types for all files in the file store.
 func (f *FileStore) Keys() map[string]byte {
-	f.mu.RLock()
-	defer f.mu.RUnlock()
-
+	// WalkKeys takes the read lock itself; holding it here as well blocks for ever
+	// behind a writer that asks for the lock in between.
 	uniqueKeys := map[string]byte{}
 	if err := f.WalkKeys(nil, func(key []byte, typ byte) error {
 		uniqueKeys[string(key)] = typ
